@@ -35,6 +35,8 @@ func variantByName(world, name string) (Variant, bool) {
 		return simrunAsm, true
 	case "purego":
 		return simrunPurego, true
+	case "asm-go1.26":
+		return simStall, true
 	}
 	return Variant{}, false
 }
